@@ -20,7 +20,7 @@ def between(a, b):
 shared = (
     between("const (\n\tvC06UDP", "// ---------------------------------------------------------------- transports")
     + between("// ---------------------------------------------------------------- generators", "// ---------------------------------------------------------------- the test")
-    + between("// vC06Limit is", "func TestVerifC06Server")
+    + between("// vC06Limit is", "// vC06Runner serves one")
 )
 
 head = '''//go:build verif
